@@ -13,8 +13,8 @@ PROPS = ["C14", "C15"]
 MANIFEST = {
     "C14": dict(
         technique="Lean 4 proof: inductive invariants of the rotation model (abstract file system, _created_files, rename chain): over all op sequences for the Index scheme, under monotone-date premises for Date/DateAndTime, with proved counter-witnesses for what fails without them; extraction of the structure of RotatingSink.h; differential correspondence on the real RotatingFileSink in a scratch directory + property oracle on the real directory",
-        text="Machine-checked proof (Lean 4) about a model of RotatingSink (constructor with clean-up/recovery scan, write_log, _size_rotation, _time_rotation, _rotate_files): for the Index scheme and every sequence of writes (any size, any timestamp) and restarts (any limit, backup count, overwrite flag, open mode a / w-with-clean-up, frequency), with unrelated files present: every statement is appended whole to exactly one file and stays in exactly one file (renames move whole files, a rename never lands on an existing file); reading the retained files oldest to newest (strictly decreasing index, then the current file) gives the written sequence minus a prefix made of whole deleted files (nothing is deleted when overwriting is off); the current file exceeds the limit only if it holds a single statement or rotation has stopped; the number of rotated files never rises above max_backup_files and, with the extracted while-loop deletion (repair of F18), every rotation that takes place leaves at most max_backup_files rotated files even when the start recovered more; an append-mode restart recovers exactly the existing index sequence and continues it; unrelated files are never touched. Date/DateAndTime (…_partial): under the premises that the civil day/second of start instant and record timestamps never decreases and that unrecovered dated files in the directory are strictly older than the start, an inductive invariant gives, within a run and again after each restart, existence of all tracked files, deque order = name order of the scheme (earlier date older, same date larger index older), retained sequence = written sequence minus a prefix of whole deleted files, and rename targets absent or already vacated; proved counter-witnesses show what fails without the premises: non-monotone timestamps (F14), the cross-restart backup bound (F15); for the pinned one-deletion-per-rotation rule a proved counter-witness (F18, since repaired) shows a recovered set larger than max_backup_files never shrinking. Tied to the code by extracting the deletion rule (while vs if) and ~30 structural facts of RotatingSink.h (trigger comparisons, order of rename/delete/open, oldest-first loop, recovery rules, defaults, validation) whose obligations are re-proved on every run, and by driving the real RotatingFileSink with generated op sequences (sizes limit±1, restarts, planted files) and comparing directory listing, per-file statement ids, _created_files, _file_size with the model after every operation.",
-        note="Naming scheme and base file name fixed for the life of a directory; FilenameAppendOption::None; fopen/rename failures not injected; uint64 wrap of timestamps ignored; w-mode restart without clean-up (remove_old_files=false) orphans the previous run's files — modelled and exercised, outside the Index theorem's premise.",
+        text="Machine-checked proof (Lean 4) about a model of RotatingSink (constructor with clean-up/recovery scan, write_log, _size_rotation, _time_rotation, _rotate_files): for the Index scheme and every sequence of writes (any size, any timestamp) and restarts (any limit, backup count, overwrite flag, open mode a / w-with-clean-up, frequency), with unrelated files present: every statement is appended whole to exactly one file and stays in exactly one file (renames move whole files, a rename never lands on an existing file); reading the retained files oldest to newest (strictly decreasing index, then the current file) gives the written sequence minus a prefix made of whole deleted files (nothing is deleted when overwriting is off); the current file exceeds the limit only if it holds a single statement or rotation has stopped; the number of rotated files never rises above max_backup_files and, with the extracted while-loop deletion (repair of F18), every rotation that takes place leaves at most max_backup_files rotated files even when the start recovered more; an append-mode restart recovers exactly the existing index sequence and continues it; unrelated files are never touched. Date/DateAndTime (…_partial): under the premises that the civil day/second of start instant and record timestamps never decreases and that unrecovered dated files in the directory are strictly older than the start, an inductive invariant gives, within a run and again after each restart, existence of all tracked files, deque order = name order of the scheme (earlier date older, same date larger index older), retained sequence = written sequence minus a prefix of whole deleted files, and rename targets absent or already vacated; proved counter-witnesses show what fails without the premises: non-monotone timestamps (F14), the cross-restart backup bound (F15); for the pinned one-deletion-per-rotation rule a proved counter-witness (F18, since repaired) shows a recovered set larger than max_backup_files never shrinking. Tied to the code by extracting the deletion rule (while vs if) and ~30 structural facts of RotatingSink.h (trigger comparisons, order of rename/delete/open, oldest-first loop, recovery rules, defaults, validation) whose obligations are re-proved on every run, and by driving the real RotatingFileSink with generated op sequences (sizes limit±1, restarts, planted files) and comparing directory listing, per-file statement ids, _created_files, _file_size with the model after every operation; every (re)start of a directory spells the sink's path differently (relative, ./-prefixed, x/../x, absolute canonical, through a symlink, trailing /., bare file name from inside the directory) — the model has no spelling parameter, so recovery and continuation must be invariant under it.",
+        note="Naming scheme and base file name fixed for the life of a directory (its spelling varies per restart: std::filesystem's path resolution itself — canonical, directory_iterator, rename through '.', '..' and symlinks — is trusted, the invariance of the sink under the spelling is what the harness tests; the working directory does not change while a sink is alive); FilenameAppendOption::None; fopen/rename failures not injected; uint64 wrap of timestamps ignored; w-mode restart without clean-up (remove_old_files=false) orphans the previous run's files — modelled and exercised, outside the Index theorem's premise.",
         ref="§5 C14, §7 F14 F15"),
     "C15": dict(
         technique="Lean 4 proof: grid invariant of _next_rotation_time for every start instant and every timestamp sequence, separation / sharing theorems on the rotation model, composition with the C14 invariant; extraction of the advance rule of _time_rotation; differential correspondence + schedule oracle (libc calendar arithmetic) on the real RotatingFileSink",
@@ -57,6 +57,9 @@ FINDING_TEXT = {
 
 
 def oracle_fields(line):
+    """the fixed key=value head of an ORACLE line: case op scheme nonmono arestarts unrecovered dst overstart.
+    (`spell=` follows them for information only: the finding classes F14/F15/F18/F19 are keyed by scheme, timestamp
+    monotonicity and what recovery skips by design — never by how the path was spelled.)"""
     w = line.split()
     d = {"kind": w[1]}
     for x in w[2:10]:
@@ -90,6 +93,15 @@ def belongs(prop, line):
         return True
     # composition with C14: losing / reordering statements under time rotation — but not the C14 findings' classes
     return k in C15_COMPOSITION and classify(line) is None
+
+
+def spellings(stat_lines):
+    """spell_<name>=n counters of the harness STATS lines, summed"""
+    tot = {}
+    for ln in stat_lines:
+        for k, v in re.findall(r"\b(spell_\w+|append_restart_over_rotated_files_noncanonical_spelling)=(\d+)", ln):
+            tot[k] = tot.get(k, 0) + int(v)
+    return tot
 
 
 def split_cases(text):
@@ -142,6 +154,7 @@ def run(prop, tier):
     ck.assumptions = [
         "the abstract file system (rename replaces the target, fails silently on a missing source; fopen w truncates, a keeps) renders POSIX for the calls the sink makes; fopen/rename/remove failures are not injected",
         "naming scheme and base file name are fixed for the life of a directory; FilenameAppendOption::None",
+        "std::filesystem resolves every spelling of the directory (relative, ./, x/../x, symlink, trailing /.) to the same directory; the model has no spelling parameter — that the sink's recovery and rotation do not depend on it is tested by the harness (op parameter sp=, ignored by the driver), not proved",
         "timestamps are natural numbers of nanoseconds (no uint64 wrap); the zone is a constant UTC offset in the theorems (mktime = local seconds − offset)",
         "names are structured values (suffix, index) in the theorems; their rendering (strftime %Y%m%d[_%H%M%S]) is compared by the harness",
     ]
@@ -156,7 +169,7 @@ def run(prop, tier):
 
     ncases, nops = (45, 40) if tier == "quick" else (500, 60)
     seeds = [ck.seed] if tier == "quick" else [ck.seed, ck.seed + 1000, ck.seed + 2000]
-    st = dict(lines=0, cases=0, nontrivial=0, skipped_dst=0, mism=[], hits=[], known_hits={}, ignored_other_prop=0, samples=[], stats=[],
+    st = dict(lines=0, cases=0, nontrivial=0, skipped_dst=0, mism=[], hits=[], known_hits={}, ignored_other_prop=0, samples=[], stats=[], stats_full=[],
               kinds={}, totals={})
     known = {f["id"]: f for f in vlib.known_findings(prop)}
 
@@ -164,6 +177,7 @@ def run(prop, tier):
         cases, tail = split_cases(text)
         for t in tail:
             st["stats"].append(label + ": " + t[:1500])
+            st["stats_full"].append(t)
         rc, dout = vlib.driver(driver_args(ex), stdin_data=text.encode())
         by_id = {c[0].split()[1]: c for c in cases}
         kind_of = {c[0].split()[1]: c[0].split()[4] for c in cases}
@@ -270,6 +284,7 @@ def run(prop, tier):
         "samples": st["samples"],
         "corpus_cases": ncorpus,
         "case_kinds": st["kinds"],
+        "path_spellings_of_starts": spellings(st["stats_full"]),
         "model_event_totals": st["totals"],
         "cases_skipped_by_driver_dst_zone": st["skipped_dst"],
         "harness_stats": st["stats"][-4:],
